@@ -1020,3 +1020,137 @@ Proof.
     - unfold mem_add. destruct ((nstep c =? 0) || (nstep c <=? S (calls m0))); cbn [calls]; lia. }
   rewrite G; [reflexivity|]. cbn [turn_start calls]. lia.
 Qed.
+
+(* ------------------------------------------------------------------ resuming: arbitrary initial counters, histories and memory *)
+
+(* budget already met when the function is called: zero generations, the state is returned as it is *)
+Lemma budget_already_met_lemma c st inp fuel g :
+  guard c (pop st) = false -> run fuel c st inp g = Some (st, g).
+Proof. intros H. destruct fuel; cbn [run]; rewrite H; reflexivity. Qed.
+
+Lemma steps_equal_env_steps_from_lemma c inp fuel st st' G :
+  lp c <> Offline -> 1 <= tour_pop c -> length (pop st) = tour_pop c ->
+  (forall g, parents_ok (tour_pop c) (g_parents (inp g))) ->
+  Forall (fun a => cur a = taken a) (pop st) ->
+  run fuel c st inp 0 = Some (st', G) ->
+  Forall (fun a => cur a = taken a) (pop st').
+Proof.
+  intros Hl H1 HL Hps H0 Hr.
+  refine (proj1 (run_inv c any_hp (fun _ a => cur a = taken a) _ _ inp fuel st 0 st' G
+                   (stream_ok_any _ _ Hps) HL H1 H0 Hr)).
+  - intros g a h m f _ E. rewrite cur_evaluate, cur_bump. cbn [taken evaluate bump].
+    destruct (rollout_counts_lemma c h m) as (_ & B & _). rewrite (B Hl), E. reflexivity.
+  - intros g a i E. exact E.
+Qed.
+
+Lemma one_fitness_per_generation_from_lemma c inp fuel st st' G f0 s0 :
+  1 <= tour_pop c -> length (pop st) = tour_pop c ->
+  (forall g, parents_ok (tour_pop c) (g_parents (inp g))) ->
+  Forall (fun a => length (fit a) = f0 /\ length (stp a) = S s0) (pop st) ->
+  run fuel c st inp 0 = Some (st', G) ->
+  Forall (fun a => length (fit a) = f0 + G /\ length (stp a) = S (s0 + G)) (pop st').
+Proof.
+  intros H1 HL Hps H0 Hr.
+  refine (proj1 (run_inv c any_hp (fun g a => length (fit a) = f0 + g /\ length (stp a) = S (s0 + g)) _ _ inp fuel
+                   st 0 st' G (stream_ok_any _ _ Hps) HL H1 _ Hr)).
+  - intros g a h m f _ [A B]. cbn [fit stp evaluate bump length]. split; [lia|].
+    destruct (stp a); cbn [length tl] in *; lia.
+  - intros g a i E. exact E.
+  - eapply Forall_impl; [|exact H0]. intros a [A B]. rewrite !Nat.add_0_r. split; assumption.
+Qed.
+
+Lemma pop_size_and_indices_from_lemma c inp fuel st st' G :
+  1 <= tour_pop c -> length (pop st) = tour_pop c -> NoDup (map idx (pop st)) ->
+  run fuel c st inp 0 = Some (st', G) ->
+  length (pop st') = length (pop st) /\ NoDup (map idx (pop st')).
+Proof.
+  intros H1 HL Hnd Hr.
+  destruct (run_is_gens_n c inp _ _ _ _ _ Hr) as (n & -> & -> & _).
+  split.
+  - clear Hr Hnd. rewrite HL. revert HL. generalize st 0.
+    induction n as [|n IH]; intros st0 g HLs; cbn [gens_n]; [exact HLs|].
+    apply IH. apply gen_length; assumption.
+  - apply gens_n_nodup; assumption.
+Qed.
+
+(* uniform loops from arbitrary equal counters s0 *)
+Lemma uniform_step_from c S0 s0 : forall g a h m f, hp_steps c S0 h -> cur a = s0 + g * S0 ->
+  cur (evaluate (bump a (snd (rollout c h m))) f) = s0 + S g * S0.
+Proof.
+  intros g a h m f Hh E. rewrite cur_evaluate, cur_bump.
+  destruct (rollout_counts_lemma c h m) as (A & _). rewrite A, Hh, E. lia.
+Qed.
+
+Definition budget_used (c : cfg) (v : nat) : nat :=
+  match lp c with MAOn => tour_pop c * v | _ => v end.
+
+Lemma guard_budget_used c pop v :
+  pop <> [] -> length pop = tour_pop c -> Forall (fun a => cur a = v) pop ->
+  guard c pop = (budget_used c v <? max_steps c).
+Proof.
+  intros Hne HL HF. unfold budget_used. destruct (lp c) eqn:E;
+    try (apply guard_uniform; [congruence|exact Hne|exact HF]).
+  rewrite (guard_uniform_sum c pop v E HF), HL. reflexivity.
+Qed.
+
+Lemma budget_used_ge c S0 s0 g : 0 < S0 -> 1 <= tour_pop c -> g <= budget_used c (s0 + g * S0).
+Proof.
+  intros HS H1. assert (A : g <= g * S0) by nia. unfold budget_used.
+  destruct (lp c); try lia.
+  assert (B : s0 + g * S0 <= tour_pop c * (s0 + g * S0)) by nia. lia.
+Qed.
+
+Lemma budget_used_mono c a b : a <= b -> budget_used c a <= budget_used c b.
+Proof. intros H. unfold budget_used. destruct (lp c); try exact H. nia. Qed.
+
+Lemma run_uniform_from c S0 s0 inp :
+  target c = None -> 0 < S0 -> 1 <= tour_pop c -> stream_ok (hp_steps c S0) (tour_pop c) inp ->
+  forall fuel st g,
+  length (pop st) = tour_pop c -> Forall (fun a => cur a = s0 + g * S0) (pop st) ->
+  max_steps c <= fuel + g -> (g = 0 \/ budget_used c (s0 + (g - 1) * S0) < max_steps c) ->
+  exists st' G, run fuel c st inp g = Some (st', G) /\
+                Forall (fun a => cur a = s0 + G * S0) (pop st') /\
+                max_steps c <= budget_used c (s0 + G * S0) /\
+                (G = 0 \/ budget_used c (s0 + (G - 1) * S0) < max_steps c) /\ g <= G.
+Proof.
+  intros Ht HS H1 Hs. induction fuel as [|f IH]; intros st g HL HF Hfuel Hprev; cbn [run];
+    (rewrite (guard_budget_used c (pop st) (s0 + g * S0));
+     [|destruct (pop st); [cbn in HL; lia|discriminate]|exact HL|exact HF]);
+    destruct (Nat.ltb_spec (budget_used c (s0 + g * S0)) (max_steps c)) as [Hlt|Hge].
+  - exfalso. pose proof (budget_used_ge c S0 s0 g HS H1). lia.
+  - exists st, g. repeat split; auto.
+  - destruct (gen c st (inp g)) as [st1 o] eqn:Eg.
+    pose proof (gen_no_stop c st (inp g) Ht) as Hno. rewrite Eg in Hno. cbn [snd] in Hno. rewrite Hno.
+    destruct (Hs g) as [Hok Hps].
+    assert (HF1 : Forall (fun a => cur a = s0 + S g * S0) (pop st1)).
+    { pose proof (gen_inv c (hp_steps c S0) (fun g a => cur a = s0 + g * S0) (uniform_step_from c S0 s0)
+                    (fun g a i E => E) g st (inp g)) as X.
+      rewrite Eg in X. cbn [fst] in X. apply X; auto.
+      - destruct (pop st); [cbn in HL; lia|discriminate].
+      - rewrite HL. exact Hps. }
+    assert (HL1 : length (pop st1) = tour_pop c).
+    { pose proof (gen_length c st (inp g) HL H1) as X. rewrite Eg in X. exact X. }
+    destruct (IH st1 (S g) HL1 HF1) as (st' & G & R & A & B & C & D).
+    + pose proof (budget_used_ge c S0 s0 g HS H1). lia.
+    + right. replace (S g - 1) with g by lia. exact Hlt.
+    + exists st', G. repeat split; auto. lia.
+  - exists st, g. repeat split; auto.
+Qed.
+
+(* every loop (per-agent budget, or summed over the tour_pop individuals for the multi-agent on-policy loop), called
+   on a population whose counters all stand at s0 (0 for a fresh population; whatever a previous call left): it runs
+   exactly the first G generations with budget_used (s0 + G*S) >= max_steps -- G = 0 when the budget is already met *)
+Lemma terminates_at_from_lemma c S0 s0 inp st :
+  target c = None -> 0 < S0 -> 1 <= tour_pop c -> length (pop st) = tour_pop c ->
+  Forall (fun a => cur a = s0) (pop st) ->
+  stream_ok (hp_steps c S0) (tour_pop c) inp ->
+  exists st' G, run (max_steps c + 1) c st inp 0 = Some (st', G) /\
+                Forall (fun a => cur a = s0 + G * S0) (pop st') /\
+                max_steps c <= budget_used c (s0 + G * S0) /\
+                (G = 0 \/ budget_used c (s0 + (G - 1) * S0) < max_steps c).
+Proof.
+  intros Ht HS H1 HL H0 Hs.
+  destruct (run_uniform_from c S0 s0 inp Ht HS H1 Hs (max_steps c + 1) st 0) as (st' & G & R & A & B & C & _); auto; try lia.
+  - eapply Forall_impl; [|exact H0]. intros a E. rewrite E. cbn [Nat.mul]. lia.
+  - exists st', G. auto.
+Qed.
